@@ -452,4 +452,55 @@ theorem cnvPairwisePipeline_exact (P : PrimeSet) (g : P.Good) (ng : P.NttGood) (
       (cnvPairwiseLane_rep P 3 j (laneCtx_of P ng 3 j (by omega) hj1 hj) rs off la lb mA mB ai aj bi bj hai haj hbi hbj hla hlb hsz l h1)
       (hbound l h1)
 
+/-! ### why the pairwise left pack must be canonical: the lazy 64-bit sum wraps where the transform fills 64 bits -/
+
+/-- a transform output at `n = 64` (`log2 n ≡ 1 mod 5`): the constant limb `i64::MAX`, prime 0, slot 39 -/
+def lazyWitness : Nat :=
+  match nttTableK primes30 0 64 with
+  | .ok t => (nttK t ((List.replicate 64 (2 ^ 63 - 1 : Int)).map (fun x => bFromU64K primes30.q0 (asU64 x)))).getD 39 0
+  | _ => 0
+
+theorem lazyWitness_value : lazyWitness = 14134845492789138207 ∧ 2 ^ 63 ≤ lazyWitness := by decide +kernel
+
+/-- the seeded variant `sum = a + b` (64-bit) of the pairwise left pack is **not** congruent to `a + b` on two
+genuine transform outputs at `n = 64`; the code's canonical pack `(a % q + b % q) mod q` is (`pairwisePackLeftK_spec`) -/
+theorem lazy_pairwise_pack_wraps :
+    ¬ ((pairwisePackLeftLazyK lazyWitness lazyWitness).1 + 2 ^ 32 * (pairwisePackLeftLazyK lazyWitness lazyWitness).2
+        ≡ lazyWitness + lazyWitness [MOD primes30.q0]) ∧
+    (pairwisePackLeftK primes30.q0 lazyWitness lazyWitness).1 ≡ lazyWitness + lazyWitness [MOD primes30.q0] := by
+  decide +kernel
+
+/-! ### `cnv_by_const_apply` (coefficient domain, `i128` accumulators) -/
+
+theorem map_w128_of_range (l : Poly) (h : ∀ x ∈ l, -(2 ^ 127) ≤ x ∧ x < 2 ^ 127) : l.map w128 = l.map id := by
+  apply List.map_congr_left
+  intro x hx
+  obtain ⟨h1, h2⟩ := h x hx
+  simp only [id]
+  exact w128_of_range x h1 h2
+
+/-- **`cnv_by_const_apply` on NTT120 is exact while the `i128` accumulators do not overflow**: if every
+coefficient of the exact result lies in the `i128` range, the wrapping model equals the exact one -/
+theorem cnvByConst_exact (n rs off : Nat) (a : Col) (b : List Int)
+    (h : ∀ l ∈ cnvByConstCol id n rs off a b, ∀ x ∈ l, -(2 ^ 127) ≤ x ∧ x < 2 ^ 127) :
+    cnvByConstCol w128 n rs off a b = cnvByConstCol id n rs off a b := by
+  unfold cnvByConstCol at h ⊢
+  by_cases h0 : a.length = 0 ∨ b.length = 0
+  · rw [if_pos h0, if_pos h0]
+  · rw [if_neg h0] at h ⊢
+    rw [if_neg h0]
+    apply List.map_congr_left
+    intro k hk
+    have hmem := h _ (List.mem_map_of_mem (f := fun k => _) hk)
+    simp only [] at hmem ⊢
+    split
+    · split
+      · rfl
+      · rename_i h1 h2
+        rw [if_pos h1, if_neg h2] at hmem
+        rw [map_w128_of_range _ (by
+          intro x hx
+          exact hmem x (by rw [List.map_id]; exact hx))]
+    · rfl
+
 end Ntt120
